@@ -111,7 +111,7 @@ Quiet(r) ==
   /\ r.ev = "quiet"
   /\ "prog" \in DOMAIN s
   /\ IsTasks(s.prog) /\ (~s.inpoll \/ s.ph = "ended")
-  /\ BranchEvents(s) = {}
+  /\ BranchEvents(s) = {} \/ s.ph = "ended"      \* after completion detached tasks are only waiting for the harness
   /\ (s.sinceWake /\ s.ph = "step" => r.woken)
   /\ UNCHANGED <<s, thr, caller>>
 
